@@ -822,6 +822,48 @@ Section BfsCorrect.
   Qed.
 End BfsCorrect.
 
-Check bfs_prefix.
-Check bfs_completed_correct.
-Check bfs_completes.
+(* C01: the answer does not depend on the internal configuration (hash, batch size, options): two runs
+   on instances with the same generator actions that both complete report the same sizes and the
+   same layer sets *)
+Theorem bfs_config_independent G1 G2 cfg1 cfg2 U starts o1 o2 :
+  acts G1 = acts G2 ->
+  (* the Section hypotheses for (G1, cfg1, U) *)
+  closed state (acts G1) U ->
+  (forall a b, U a -> U b -> hashf G1 a = hashf G1 b -> a = b) ->
+  (is_identity G1 = true -> forall a, U a -> unword G1 (hashf G1 a) = a) ->
+  (inv_closed G1 = true -> symmetric_on state (acts G1) U) ->
+  (1 <= batch_size cfg1)%Z ->
+  (* the Section hypotheses for (G2, cfg2, U) *)
+  closed state (acts G2) U ->
+  (forall a b, U a -> U b -> hashf G2 a = hashf G2 b -> a = b) ->
+  (is_identity G2 = true -> forall a, U a -> unword G2 (hashf G2 a) = a) ->
+  (inv_closed G2 = true -> symmetric_on state (acts G2) U) ->
+  (1 <= batch_size cfg2)%Z ->
+  (forall s, In s starts -> U s) -> starts <> [] ->
+  bfs G1 cfg1 starts = Ok o1 -> bfs G2 cfg2 starts = Ok o2 ->
+  completed o1 = true -> completed o2 = true ->
+  sizes o1 = sizes o2 /\
+  forall k l1 l2, In (k, l1) (layers o1) -> In (k, l2) (layers o2) -> set_eq l1 l2.
+Proof.
+  intros Hacts C1 N1 I1 S1 B1 C2 N2 I2 S2 B2 HU Hne R1 R2 K1 K2.
+  pose proof (bfs_completed_correct G1 cfg1 U C1 N1 I1 S1 B1 starts HU Hne o1 R1 K1) as P1.
+  pose proof (bfs_completed_correct G2 cfg2 U C2 N2 I2 S2 B2 starts HU Hne o2 R2 K2) as P2.
+  pose proof (bfs_prefix G1 cfg1 U C1 N1 I1 S1 B1 starts HU Hne o1 R1) as Q1.
+  pose proof (bfs_prefix G2 cfg2 U C2 N2 I2 S2 B2 starts HU Hne o2 R2) as Q2.
+  cbv zeta in *. rewrite <- Hacts in *.
+  destruct Q1 as (D1pos & _). destruct Q2 as (D2pos & _).
+  destruct P1 as (Hs1 & Hn1 & He1 & Hl1 & _). destruct P2 as (Hs2 & Hn2 & He2 & Hl2 & _).
+  assert (HD : length (sizes o1) = length (sizes o2)).
+  { destruct (lt_eq_lt_dec (length (sizes o1)) (length (sizes o2))) as [[Hlt | Heq] | Hgt]; auto.
+    - exfalso. apply (Hn2 (length (sizes o1)) Hlt). apply He1. lia.
+    - exfalso. apply (Hn1 (length (sizes o2)) Hgt). apply He2. lia. }
+  split.
+  - rewrite Hs1, Hs2, HD. reflexivity.
+  - intros k l1 l2 H1 H2 t. destruct (Hl1 k l1 H1) as [_ E1]. destruct (Hl2 k l2 H2) as [_ E2].
+    rewrite (E1 t), (E2 t). reflexivity.
+Qed.
+
+Print Assumptions bfs_prefix.
+Print Assumptions bfs_completed_correct.
+Print Assumptions bfs_completes.
+Print Assumptions bfs_config_independent.
